@@ -300,6 +300,11 @@ cleanup:
  *
  */
 int KSI_DataHash_fromImprint(KSI_CTX *ctx, const unsigned char *imprint, size_t imprint_length, KSI_DataHash **hash) {
+	/* An imprint consists of at least the hash algorithm id. */
+	if (imprint == NULL || imprint_length == 0) {
+		KSI_pushError(ctx, KSI_INVALID_FORMAT, "Imprint is empty.");
+		return KSI_INVALID_FORMAT;
+	}
 	return KSI_DataHash_fromDigest(ctx, *imprint, imprint + 1, imprint_length - 1, hash);
 }
 
